@@ -152,6 +152,143 @@ class CFG:
         return not (set(targets) & reach)
 
 
+    # --- reachability that ignores switch edges ruled out by the variant of a directly constructed Result/Option/ControlFlow
+    def feasible_reach(self, src, avoid=()):
+        """Blocks reachable from `src` along normal edges, where an edge of a `switchInt(discriminant(x))` is followed only if the
+        variant it selects is possible for x.  Variants are tracked from `x = Ok(..)`-style aggregates through plain moves and
+        `Try::branch`; anything else (a call result, a write through a projection, a local whose address is taken mutably)
+        is unknown.  Only prunes edges no execution can take: path-insensitive reachability is an upper bound of the result."""
+        body = self.body
+        TR = ("std::result::Result", "std::option::Option", "std::ops::ControlFlow")
+        escaped = set()
+        for bl in body.blocks:
+            for st in bl["stmts"]:
+                if st["k"] == "assign" and st["rv"]["k"] in ("ref", "rawptr") and (st["rv"].get("mut") or st["rv"]["k"] == "rawptr"):
+                    pl = st["rv"]["place"]
+                    if not any(e.get("k") == "deref" for e in pl["p"]):
+                        escaped.add(pl["l"])
+        avoid = set(avoid)
+
+        def plain(op):
+            if isinstance(op, dict) and op.get("k") in ("move", "copy") and not op["place"]["p"]:
+                return op["place"]["l"]
+            return None
+
+        def transfer(bi, vals, dsrc):
+            vals = dict(vals)
+            dsrc = dict(dsrc)
+            bl = body.blocks[bi]
+
+            def kill(l):
+                vals.pop(l, None)
+                dsrc.pop(l, None)
+                for d_, x_ in list(dsrc.items()):
+                    if x_ == l:
+                        dsrc.pop(d_)
+            for st in bl["stmts"]:
+                if st["k"] in ("live", "dead"):
+                    kill(st["l"])
+                    continue
+                if st["k"] != "assign":
+                    pl = st.get("place")
+                    if isinstance(pl, dict) and "l" in pl:
+                        kill(pl["l"])
+                    continue
+                pl, rv = st["place"], st["rv"]
+                l = pl["l"]
+                if pl["p"] or l in escaped:
+                    kill(l)
+                    continue
+                new, src_of = None, None
+                if rv["k"] == "aggregate" and rv.get("agg") == "adt" and rv.get("name") in TR:
+                    new = frozenset([rv["variant"]])
+                elif rv["k"] == "use":
+                    x = plain(rv["op"])
+                    if x is not None and x in vals:
+                        new = vals[x]
+                elif rv["k"] == "discr" and not rv["place"]["p"] and rv["place"]["l"] in vals:
+                    new, src_of = vals[rv["place"]["l"]], rv["place"]["l"]
+                kill(l)
+                if new is not None:
+                    vals[l] = new
+                    if src_of is not None:
+                        dsrc[l] = src_of
+            t = bl["term"]
+            outs = []
+            if t["k"] == "call":
+                d = t.get("dest")
+                if isinstance(d, dict) and "l" in d:
+                    new = None
+                    fn = (t.get("func") or {}).get("c", {}).get("fn", {}) if isinstance(t.get("func"), dict) else {}
+                    if not d["p"] and d["l"] not in escaped and fn.get("def") == "std::ops::Try::branch" and len(t["args"]) == 1:
+                        x = plain(t["args"][0])
+                        aty = t["args"][0].get("place", {}).get("ty", "") if isinstance(t["args"][0], dict) else ""
+                        if x is not None and x in vals:
+                            if aty.startswith("std::result::Result<"):
+                                new = vals[x]                                   # Ok(0)->Continue(0), Err(1)->Break(1)
+                            elif aty.startswith("std::option::Option<"):
+                                new = frozenset(1 - v for v in vals[x])          # None(0)->Break(1), Some(1)->Continue(0)
+                    kill(d["l"])
+                    if new is not None:
+                        vals[d["l"]] = new
+                if t.get("target") is not None:
+                    outs.append((t["target"], vals, dsrc))
+            elif t["k"] == "switch":
+                d = plain(t["discr"])
+                S = vals.get(d) if d is not None else None
+                listed = set(v for (v, _b) in t["targets"])
+                for (v, b2) in t["targets"]:
+                    if S is not None and v not in S:
+                        continue
+                    v2, d2 = vals, dsrc
+                    if S is not None:
+                        v2 = dict(vals)
+                        v2[d] = frozenset([v])
+                        if d in dsrc and dsrc[d] in v2:
+                            v2[dsrc[d]] = frozenset([v])
+                    outs.append((b2, v2, d2))
+                if S is None or (S - listed):
+                    outs.append((t["otherwise"], vals, dsrc))
+            else:
+                for s2 in self.nsucc[bi]:
+                    outs.append((s2, vals, dsrc))
+            return outs
+
+        def join(a, b):
+            (va, da), (vb, db) = a, b
+            v = {}
+            for l in va:
+                if l in vb:
+                    v[l] = va[l] | vb[l]
+            d = {l: x for (l, x) in da.items() if db.get(l) == x and l in v and x in v}
+            return (v, d)
+        ins = {src: ({}, {})}
+        work = [src]
+        while work:
+            bi = work.pop()
+            if bi in avoid:
+                continue
+            for (s2, v2, d2) in transfer(bi, *ins[bi]):
+                if s2 in avoid:
+                    continue
+                if s2 not in ins:
+                    ins[s2] = (v2, d2)
+                    work.append(s2)
+                else:
+                    j = join(ins[s2], (v2, d2))
+                    if j != ins[s2]:
+                        ins[s2] = j
+                        work.append(s2)
+        return set(ins) - avoid
+
+    def all_feasible_paths_pass(self, src, targets, through):
+        """like all_paths_pass, but edges ruled out by a known enum variant (see feasible_reach) are not paths"""
+        avoid = set(through)
+        if src in avoid:
+            return True
+        return not (set(targets) & self.feasible_reach(src, avoid=avoid))
+
+
 _CFGS = {}
 
 
